@@ -366,6 +366,9 @@ func runScenario(sc *scenario, tr *hx.Trace) int {
 		}
 		cancel()
 		armed.Store(false)
+		if hx.PortExhausted(sendErr) {
+			hx.Fatal("scenario %d: %v", sc.id, sendErr)
+		}
 		waitNoConns(cs, "end of run")
 		flush()
 		es := ""
